@@ -1257,3 +1257,122 @@ Qed.
 
 Theorem tswizzle_wft perm n t : Permutation perm (seq 0 n) -> wft n t -> wft n (tswizzle perm t).
 Proof. intros HP H. apply (tswizzle_spec perm n t HP H). Qed.
+
+(* ---- canonical form: well-formed tries with the same payload at every path are equal ---- *)
+Lemma wft_inhabited n : forall t, wft n t -> exists zs v, length zs = n /\ zl zs t = Some v.
+Proof.
+  induction n as [|n IH]; intros t H; cbn [wft] in H.
+  - destruct H as [v ->]. exists [], v. split; reflexivity.
+  - destruct H as [l [-> [Hs [Hne Hc]]]]. destruct l as [|ct l]; [congruence|].
+    inversion Hc as [|? ? Hct _]; subst. destruct (IH _ Hct) as [zs [v [Hlen Hz]]].
+    pose proof Hs as Hs0. apply int_sorted_cons_inv in Hs0. destruct Hs0 as [[c Hc0] _]. destruct ct as [c' s]. cbn [fst snd] in *. subst c'.
+    exists (c :: zs), v. split; [cbn; lia|]. rewrite zl_cons, (In_alookup c s); [exact Hz|exact Hs|left; reflexivity].
+Qed.
+
+Lemma alookup_below {A} c (l : list (value * A)) : Forall int_key l -> (forall b, In b l -> c < kz b) -> alookup (VInt c) l = None.
+Proof.
+  induction l as [|ct l IH]; intros Hk Hlt; [reflexivity|].
+  inversion Hk as [|? ? [z Hz] Hk']; subst. destruct ct as [c' y]. cbn [fst] in Hz. subst c'. cbn [alookup]. rewrite veqb_int.
+  pose proof (Hlt _ (or_introl eq_refl)) as H. cbn in H. destruct (Z.eqb_spec c z); [lia|].
+  apply IH; [exact Hk'|]. intros b Hb. apply Hlt. right. exact Hb.
+Qed.
+
+Lemma sorted_fiber_ext {A} (l1 : list (value * A)) : forall l2, int_sorted l1 -> int_sorted l2 ->
+  (forall c, alookup (VInt c) l1 = alookup (VInt c) l2) -> l1 = l2.
+Proof.
+  induction l1 as [|ct1 l1 IH]; intros l2 H1 H2 E.
+  - destruct l2 as [|ct2 l2]; [reflexivity|]. apply int_sorted_cons_inv in H2. destruct H2 as [[c2 Hc2] _].
+    destruct ct2 as [c' s2]. cbn [fst] in Hc2. subst c'. specialize (E c2). cbn [alookup] in E. rewrite veqb_int, Z.eqb_refl in E. discriminate.
+  - apply int_sorted_cons_inv in H1. destruct H1 as [[c1 Hc1] [H1 Hlt1]]. destruct ct1 as [c' s1]. cbn [fst] in Hc1. subst c'.
+    change (kz (VInt c1, s1)) with c1 in Hlt1.
+    destruct l2 as [|ct2 l2].
+    { specialize (E c1). cbn [alookup] in E. rewrite veqb_int, Z.eqb_refl in E. discriminate. }
+    apply int_sorted_cons_inv in H2. destruct H2 as [[c2 Hc2] [H2 Hlt2]]. destruct ct2 as [c' s2]. cbn [fst] in Hc2. subst c'.
+    change (kz (VInt c2, s2)) with c2 in Hlt2.
+    assert (Ec : c1 = c2).
+    { destruct (Z.lt_trichotomy c1 c2) as [Hlt|[Heq|Hgt]]; [|exact Heq|].
+      - specialize (E c1). cbn [alookup] in E. rewrite !veqb_int, Z.eqb_refl in E. destruct (Z.eqb_spec c1 c2); [lia|].
+        rewrite alookup_below in E; [discriminate|apply H2|]. intros b Hb. specialize (Hlt2 b Hb). lia.
+      - specialize (E c2). cbn [alookup] in E. rewrite !veqb_int, Z.eqb_refl in E. destruct (Z.eqb_spec c2 c1); [lia|].
+        rewrite alookup_below in E; [discriminate|apply H1|]. intros b Hb. specialize (Hlt1 b Hb). lia. }
+    subst c2. pose proof (E c1) as E1. cbn [alookup] in E1. rewrite veqb_int, Z.eqb_refl in E1. injection E1 as <-.
+    f_equal. apply IH; [exact H1|exact H2|]. intros c. specialize (E c). cbn [alookup] in E. rewrite veqb_int in E.
+    destruct (Z.eqb_spec c c1) as [Hcc|Hne]; [|exact E]. rewrite Hcc.
+    rewrite !alookup_below; [reflexivity|apply H2|exact Hlt2|apply H1|exact Hlt1].
+Qed.
+
+Theorem wft_ext n : forall t1 t2, wft n t1 -> wft n t2 ->
+  (forall zs, length zs = n -> zl zs t1 = zl zs t2) -> t1 = t2.
+Proof.
+  induction n as [|n IH]; intros t1 t2 H1 H2 E; cbn [wft] in H1, H2.
+  - destruct H1 as [v1 ->]. destruct H2 as [v2 ->]. specialize (E [] eq_refl). cbn in E. congruence.
+  - destruct H1 as [l1 [-> [Hs1 [_ Hc1]]]]. destruct H2 as [l2 [-> [Hs2 [_ Hc2]]]]. f_equal.
+    rewrite Forall_forall in Hc1, Hc2. apply sorted_fiber_ext; [exact Hs1|exact Hs2|]. intros c.
+    destruct (alookup (VInt c) l1) as [s1|] eqn:E1; destruct (alookup (VInt c) l2) as [s2|] eqn:E2; try reflexivity.
+    + f_equal. apply IH.
+      * apply alookup_In in E1; [|apply Hs1]. apply (Hc1 _ E1).
+      * apply alookup_In in E2; [|apply Hs2]. apply (Hc2 _ E2).
+      * intros zs Hzs. specialize (E (c :: zs)). rewrite !zl_cons, E1, E2 in E. apply E. cbn. lia.
+    + exfalso. pose proof E1 as E1'. apply alookup_In in E1'; [|apply Hs1]. destruct (wft_inhabited n s1 (Hc1 _ E1')) as [zs [v [Hlen Hz]]].
+      specialize (E (c :: zs)). rewrite !zl_cons, E1, E2, Hz in E. discriminate E. cbn. lia.
+    + exfalso. pose proof E2 as E2'. apply alookup_In in E2'; [|apply Hs2]. destruct (wft_inhabited n s2 (Hc2 _ E2')) as [zs [v [Hlen Hz]]].
+      specialize (E (c :: zs)). rewrite !zl_cons, E1, E2, Hz in E. discriminate E. cbn. lia.
+Qed.
+
+(* (g, inverse) swizzling by a permutation and then by its inverse is the identity *)
+Theorem tswizzle_inverse perm perm' n t : Permutation perm (seq 0 n) -> Permutation perm' (seq 0 n) ->
+  (forall zs : list Z, length zs = n -> nth_perm perm' (nth_perm perm zs 0) 0 = zs) ->
+  wft n t -> tswizzle perm' (tswizzle perm t) = t.
+Proof.
+  intros HP HP' Hinv H. pose proof (tswizzle_wft perm n t HP H) as H1. pose proof (tswizzle_wft perm' n _ HP' H1) as H2.
+  apply (wft_ext n); [exact H2|exact H|]. intros zs Hzs.
+  destruct (perm_range perm n HP) as [Hr Hplen]. destruct (perm_range perm' n HP') as [Hr' Hplen'].
+  assert (Hq : length (nth_perm perm zs 0) = n) by (unfold nth_perm; rewrite map_length; exact Hplen).
+  pose proof (tswizzle_lookup perm' n (tswizzle perm t) (nth_perm perm zs 0) HP' H1 Hq) as L1.
+  pose proof (tswizzle_lookup perm n t zs HP H Hzs) as L2.
+  rewrite nth_perm_VInt in L1 by (intros i Hi; rewrite Hq; apply Hr'; exact Hi).
+  rewrite nth_perm_VInt in L2 by (intros i Hi; rewrite Hzs; apply Hr; exact Hi).
+  rewrite (Hinv zs Hzs) in L1. unfold zl. rewrite L1. exact L2.
+Qed.
+
+(* the two-level transpose is an involution *)
+Corollary tswizzle_transpose_involution t : wft 2 t -> tswizzle [1; 0]%nat (tswizzle [1; 0]%nat t) = t.
+Proof.
+  apply (tswizzle_inverse [1; 0]%nat [1; 0]%nat 2).
+  - apply perm_swap.
+  - apply perm_swap.
+  - intros zs Hzs. destruct zs as [|a [|b [|c zs]]]; try discriminate. reflexivity.
+Qed.
+
+Example tswizzle_transpose_ex :
+  tswizzle [1; 0]%nat (TNode ex_trie2) =
+    TNode [(VInt 0, TNode [(VInt 2, ex_leaf 3); (VInt 3, ex_leaf 4)]); (VInt 1, TNode [(VInt 0, ex_leaf 1)]);
+           (VInt 5, TNode [(VInt 0, ex_leaf 2); (VInt 3, ex_leaf 5)])] /\
+  tswizzle [1; 0]%nat (tswizzle [1; 0]%nat (TNode ex_trie2)) = TNode ex_trie2 /\
+  tlookup (nth_perm [1; 0]%nat (map VInt [3; 5]) VNone) (tswizzle [1; 0]%nat (TNode ex_trie2)) = tlookup (map VInt [3; 5]) (TNode ex_trie2).
+Proof.
+  split; [vm_compute; reflexivity|]. split; [apply tswizzle_transpose_involution; exact ex_trie2_wft|].
+  apply (tswizzle_lookup [1; 0]%nat 2); [apply perm_swap|exact ex_trie2_wft|reflexivity].
+Qed.
+
+(* a three-rank rotation and its inverse *)
+Definition ex_trie3 : trie :=
+  TNode [(VInt 1, TNode ex_trie2); (VInt 4, TNode [(VInt 2, TNode [(VInt 0, ex_leaf 7); (VInt 9, ex_leaf 8)])])].
+
+Example ex_trie3_wft : wft 3 ex_trie3.
+Proof.
+  eexists. split; [reflexivity|]. split; [prove_int_sorted|]. split; [discriminate|].
+  constructor; [exact ex_trie2_wft|]. constructor; [|constructor]. cbn [snd].
+  eexists. split; [reflexivity|]. split; [prove_int_sorted|]. split; [discriminate|].
+  repeat constructor; cbn [snd]; (eexists; split; [reflexivity|]; split; [prove_int_sorted|]; split; [discriminate|]);
+    repeat constructor; eexists; reflexivity.
+Qed.
+
+Example tswizzle_rotation_ex : tswizzle [2; 0; 1]%nat (tswizzle [1; 2; 0]%nat ex_trie3) = ex_trie3.
+Proof.
+  apply (tswizzle_inverse [1; 2; 0]%nat [2; 0; 1]%nat 3).
+  - apply perm_trans with [1; 0; 2]%nat; [apply perm_skip; apply perm_swap|apply perm_swap].
+  - apply perm_trans with [0; 2; 1]%nat; [apply perm_swap|apply perm_skip; apply perm_swap].
+  - intros zs Hzs. destruct zs as [|a [|b [|c [|d zs]]]]; try discriminate. reflexivity.
+  - exact ex_trie3_wft.
+Qed.
